@@ -69,7 +69,7 @@ P = D.DesignProperty(
     rule=("case = generated design spec accepted by the block constructor (constructor rejections are discarded and "
           "counted); each is synthesized with IterateSATGen, RandomGen, CMSGen (3 samples) and UniGen (2 samples, forked "
           "child); non-trivial = the design has at least one constraint or derived factor; distinct = distinct spec JSON"),
-    cfg_quick=CFG, n_quick=30, n_thorough=1200, case_limit=(10, 90),
+    cfg_quick=CFG, n_quick=30, n_thorough=300, case_limit=(10, 90),
     limits={"max_T": {"quick": 8, "thorough": 12}},
     assumptions=["UnigenError from the external sampler wrapper is a documented refusal, everything else is internal",
                  "designs with more trials than the tier bound are discarded as too-large"])
